@@ -39,10 +39,13 @@ theorem ok_of_sections_end (P : Piecewise F ok) {t b0 b h : Text} (hb0 : Blank b
     · exact P.okSuffix _ h0 hh0 hb
 
 /-- **One step, piecewise.** -/
-theorem step_pieces (P : Piecewise F ok) {t b h a hdr : Text} (e : Bool) (hs : SectionsOK t b h a)
+theorem step_pieces (P : Piecewise F ok) {t b h a hdr : Text} (e : Bool)
+    (hs : SectionsOK t b h a ∨ (b = [] ∧ h = [] ∧ a = [] ∧ F t = []))
     (hc : cleanSeam b = true) (hokb : ok (rstrip b)) (hokh : h = [] ∨ ∃ h0, h = h0 ++ ['\n'] ∧ ok h0) (hokhdr : ok hdr) :
     (∀ x ∈ F t, x ∈ F (placeHeader hdr b a e) ∨ x ∈ F h) ∧ (∀ x ∈ F hdr, x ∈ F (placeHeader hdr b a e)) := by
   refine ⟨fun x hx => ?_, fun x hx => placed_holds P e hc hokb hokhdr x (.inr (.inl hx))⟩
+  rcases hs with hs | ⟨_, _, _, hnone⟩
+  case inr => rw [hnone] at hx; cases hx
   obtain ⟨b0, hb0, hb0l, htext⟩ := hs.text
   have hx' : x ∈ F (b0 ++ b ++ h ++ a) := by
     rcases htext with h1 | ⟨h1, h2⟩
@@ -110,13 +113,34 @@ theorem annotate_sections {c : HdrCfg} {replace skip : Bool} {info : Extracted} 
   rw [ht, h1, h2, h3]
   simp [retranslate]
 
-theorem sections_ok (c : HdrCfg) (replace : Bool) (t : Text)
-    (hstyle : replace = true → (c.style.name == "EmptyCommentStyle") = false) (hno : NoExoticBreaks t) :
-    SectionsOK t (sectionsOf c replace t).1 (sectionsOf c replace t).2.1 (sectionsOf c replace t).2.2 := by
+/-- what `Spec.styleOK` says -/
+theorem styleOK_cases {o : Op} {t : Text} (h : styleOK o t = true) :
+    o.replace = false ∨ (o.c.style.name == "EmptyCommentStyle") = false ∨
+      ((o.c.style.name == "EmptyCommentStyle") = true ∧ o.c.style.shebangs = [] ∧ (extractRaw t).lic.all o.c.parses = true) := by
+  unfold styleOK at h
+  simp only [Bool.or_eq_true, Bool.not_eq_true', Bool.and_eq_true, List.isEmpty_iff] at h
+  rcases h with (h | h) | h
+  · exact .inl h
+  · exact .inr (.inl h)
+  · cases hn : (o.c.style.name == "EmptyCommentStyle") with
+    | false => exact .inr (.inl rfl)
+    | true => exact .inr (.inr ⟨rfl, h.1, h.2⟩)
+
+/-- the sections of an invocation are sections of the text — or (`.license` pseudo style, no information found) the text
+    declares nothing and is replaced as a whole -/
+theorem sections_ok (o : Op) (t : Text) (hstyle : styleOK o t = true) (hno : NoExoticBreaks t) :
+    SectionsOK t (sectionsOf o.c o.replace t).1 (sectionsOf o.c o.replace t).2.1 (sectionsOf o.c o.replace t).2.2 ∨
+    ((sectionsOf o.c o.replace t).1 = [] ∧ (sectionsOf o.c o.replace t).2.1 = [] ∧ (sectionsOf o.c o.replace t).2.2 = [] ∧
+      Nothing t) := by
   unfold sectionsOf
-  cases replace
-  · simpa using sections_add c t hno
-  · simpa using sections_replace c t (hstyle rfl) hno
+  rcases styleOK_cases hstyle with h | h | ⟨h1, h2, h3⟩
+  · rw [h]; left; simpa using sections_add o.c t hno
+  · cases o.replace
+    · left; simpa using sections_add o.c t hno
+    · left; simpa using sections_replace o.c t h hno
+  · cases o.replace
+    · left; simpa using sections_add o.c t hno
+    · simpa using sections_license o.c t h1 h2 h3
 
 /-! ### the ignore filter -/
 
@@ -145,8 +169,10 @@ theorem findSub_none_snoc {pat t : Text} (h : findSub pat t = none) (hnl : '\n' 
     simp [findSub, h3, ih h2]
 
 /-- no ignore region opens in the old header block when none opens in the text -/
-theorem noIgnore_block {t b h a : Text} (hs : SectionsOK t b h a) (hns : noIgnoreStart t = true) :
-    findSub Generated.ignoreStart h = none := by
+theorem noIgnore_block {t b h a : Text} {X : Prop} (hs : SectionsOK t b h a ∨ (b = [] ∧ h = [] ∧ a = [] ∧ X))
+    (hns : noIgnoreStart t = true) : findSub Generated.ignoreStart h = none := by
+  rcases hs with hs | ⟨_, rfl, _, _⟩
+  case inr => decide
   unfold noIgnoreStart at hns
   simp only [Option.isNone_iff_eq_none] at hns
   obtain ⟨b0, _, _, htext⟩ := hs.text
@@ -197,30 +223,48 @@ theorem createHeader_cpr {c : HdrCfg} {info : Extracted} {header h : Text} (hmer
     · simp only [hp, Bool.not_false, if_true] at hok
       cases hok
 
+/-- the disjunction `sections_ok` gives, for a reader `F` that finds nothing in a text that declares nothing -/
+theorem sections_for {F : Text → List Text} {t b h a : Text} (hs : SectionsOK t b h a ∨ (b = [] ∧ h = [] ∧ a = [] ∧ Nothing t))
+    (hF : Nothing t → F t = []) : SectionsOK t b h a ∨ (b = [] ∧ h = [] ∧ a = [] ∧ F t = []) := by
+  rcases hs with h1 | ⟨h1, h2, h3, h4⟩
+  · exact .inl h1
+  · exact .inr ⟨h1, h2, h3, hF h4⟩
+
+theorem sections_block {t b h a : Text} {X : Prop} (hs : SectionsOK t b h a ∨ (b = [] ∧ h = [] ∧ a = [] ∧ X)) :
+    lineEnded h = true := by
+  rcases hs with h1 | ⟨_, rfl, _, _⟩
+  · exact h1.block
+  · rfl
+
 /-- **Copyright notices, one step, the whole file.**  Every notice the old text declares and every requested notice is
     declared by the new text. -/
-theorem step_cpr {c : HdrCfg} {replace skip : Bool} {info : Extracted} {t t' : Text}
-    (hw : annotateText c replace skip info t = .written t') (hmerge : c.merge = false)
-    (hstyle : replace = true → (c.style.name == "EmptyCommentStyle") = false)
+theorem step_cpr {o : Op} {t t' : Text}
+    (hw : annotateText o.c o.replace o.skipExisting o.info t = .written t') (hmerge : o.c.merge = false)
+    (hstyle : styleOK o t = true)
     (hno : NoExoticBreaks t) (hns : noIgnoreStart t = true) (hns' : noIgnoreStart t' = true)
-    (hc : cleanSeam (sectionsOf c replace t).1 = true) (x : Text)
-    (hx : x ∈ (extractRaw t).cpr ∨ x ∈ info.cpr) : x ∈ (extractRaw t').cpr := by
+    (hc : cleanSeam (sectionsOf o.c o.replace t).1 = true) (x : Text)
+    (hx : x ∈ (extractRaw t).cpr ∨ x ∈ o.info.cpr) : x ∈ (extractRaw t').cpr := by
   obtain ⟨hdr, hcr, ht'⟩ := annotate_sections hw hno
-  have hs := sections_ok c replace t hstyle hno
+  have hs := sections_ok o t hstyle hno
   have hnsT : findSub Generated.ignoreStart t = none := by
     unfold noIgnoreStart at hns; simpa using hns
   have hnsT' : findSub Generated.ignoreStart t' = none := by
     unfold noIgnoreStart at hns'; simpa using hns'
   have hnsH := noIgnore_block hs hns
   have hnsHdr : findSub Generated.ignoreStart hdr = none := noIgnore_placed (by rw [← ht']; exact hns')
-  have hokh : (sectionsOf c replace t).2.1 = [] ∨ ∃ h0, (sectionsOf c replace t).2.1 = h0 ++ ['\n'] ∧ True := by
-    rcases lineEnded_iff.mp hs.block with h | ⟨u, hu⟩
+  have hokh : (sectionsOf o.c o.replace t).2.1 = [] ∨ ∃ h0, (sectionsOf o.c o.replace t).2.1 = h0 ++ ['\n'] ∧ True := by
+    rcases lineEnded_iff.mp (sections_block hs) with h | ⟨u, hu⟩
     · exact .inl h
     · exact .inr ⟨u, hu, trivial⟩
-  obtain ⟨h1, h2⟩ := step_pieces cpr_piecewise (hdr := hdr) (!(sectionsOf c replace t).2.1.isEmpty) hs hc trivial hokh trivial
+  have hs' := sections_for (F := cprLines) hs (fun hn => by
+    have : ∀ y, y ∉ cprLines t := fun y hy => by
+      have := (mem_extractRaw_cpr hnsT).mpr hy
+      rw [hn.1] at this; cases this
+    exact List.eq_nil_iff_forall_not_mem.mpr this)
+  obtain ⟨h1, h2⟩ := step_pieces cpr_piecewise (hdr := hdr) (!(sectionsOf o.c o.replace t).2.1.isEmpty) hs' hc trivial hokh trivial
   rw [mem_extractRaw_cpr hnsT', ht']
-  have hfromHdr : x ∈ (extractRaw hdr).cpr → x ∈ cprLines (placeHeader hdr (sectionsOf c replace t).1 (sectionsOf c replace t).2.2
-      (!(sectionsOf c replace t).2.1.isEmpty)) := fun h => h2 x ((mem_extractRaw_cpr hnsHdr).mp h)
+  have hfromHdr : x ∈ (extractRaw hdr).cpr → x ∈ cprLines (placeHeader hdr (sectionsOf o.c o.replace t).1 (sectionsOf o.c o.replace t).2.2
+      (!(sectionsOf o.c o.replace t).2.1.isEmpty)) := fun h => h2 x ((mem_extractRaw_cpr hnsHdr).mp h)
   rcases hx with hx | hx
   · rcases h1 x ((mem_extractRaw_cpr hnsT).mp hx) with h | h
     · exact h
@@ -264,20 +308,23 @@ theorem okEnded_of_openEnd {h : Text} (hl : lineEnded h = true) (ho : openEnd h 
     rw [lastNonSpace_append_blank u ['\n'] (by decide)] at ho
     exact ho
 
+theorem eq_nil_of_mem_iff {F : Text → List Text} {G : List Text} {t : Text} (h : ∀ x, x ∈ G ↔ x ∈ F t) (hG : G = []) : F t = [] :=
+  List.eq_nil_iff_forall_not_mem.mpr fun y hy => by
+    have := (h y).mpr hy
+    rw [hG] at this; cases this
+
 /-- **Tag values, one step, the whole file** (for either tag): a value the old text holds is held by the new text or by the
     old header block; a value the new header block holds is held by the new text. -/
 theorem step_tag {F : Text → List Text} (P : Piecewise F (fun u => openEnd u = false))
-    {c : HdrCfg} {replace : Bool} {t t' hdr : Text}
-    (hstyle : replace = true → (c.style.name == "EmptyCommentStyle") = false)
-    (hno : NoExoticBreaks t)
-    (ht' : t' = placeHeader hdr (sectionsOf c replace t).1 (sectionsOf c replace t).2.2 (!(sectionsOf c replace t).2.1.isEmpty))
-    (hc : cleanSeam (sectionsOf c replace t).1 = true)
-    (ho1 : openEnd (sectionsOf c replace t).1 = false) (ho2 : openEnd (sectionsOf c replace t).2.1 = false)
+    {o : Op} {t t' hdr : Text} (hstyle : styleOK o t = true) (hno : NoExoticBreaks t) (hF : Nothing t → F t = [])
+    (ht' : t' = placeHeader hdr (sectionsOf o.c o.replace t).1 (sectionsOf o.c o.replace t).2.2 (!(sectionsOf o.c o.replace t).2.1.isEmpty))
+    (hc : cleanSeam (sectionsOf o.c o.replace t).1 = true)
+    (ho1 : openEnd (sectionsOf o.c o.replace t).1 = false) (ho2 : openEnd (sectionsOf o.c o.replace t).2.1 = false)
     (ho3 : openEnd hdr = false) :
-    (∀ x ∈ F t, x ∈ F t' ∨ x ∈ F (sectionsOf c replace t).2.1) ∧ (∀ x ∈ F hdr, x ∈ F t') := by
-  have hs := sections_ok c replace t hstyle hno
+    (∀ x ∈ F t, x ∈ F t' ∨ x ∈ F (sectionsOf o.c o.replace t).2.1) ∧ (∀ x ∈ F hdr, x ∈ F t') := by
+  have hs := sections_ok o t hstyle hno
   rw [ht']
-  exact step_pieces P _ hs hc (by rw [openEnd_rstrip]; exact ho1) (okEnded_of_openEnd hs.block ho2) ho3
+  exact step_pieces P _ (sections_for hs hF) hc (by rw [openEnd_rstrip]; exact ho1) (okEnded_of_openEnd (sections_block hs) ho2) ho3
 
 /-- what `stepGoodFull` gives for a step that wrote `t'` -/
 theorem seamOK_parts {o : Op} {t hdr : Text} (h : seamOK o t = true)
@@ -296,14 +343,15 @@ theorem step_declares {norm : Text → Text} {o : Op} {t t' : Text}
   obtain ⟨hdr, hcr, ht'⟩ := annotate_sections hw hno
   obtain ⟨hc, ho1, ho2, ho3⟩ := seamOK_parts hseam hcr
   refine ⟨fun x hx => step_cpr hw hmerge hstyle hno hns hns' hc x (List.mem_append.mp hx), fun x hx => ?_⟩
-  have hs := sections_ok o.c o.replace t hstyle hno
+  have hs := sections_ok o t hstyle hno
   have hnsT : findSub Generated.ignoreStart t = none := by
     unfold noIgnoreStart at hns; simpa using hns
   have hnsT' : findSub Generated.ignoreStart t' = none := by
     unfold noIgnoreStart at hns'; simpa using hns'
   have hnsH := noIgnore_block hs hns
   have hnsHdr : findSub Generated.ignoreStart hdr = none := noIgnore_placed (by rw [← ht']; exact hns')
-  obtain ⟨h1, h2⟩ := step_tag lic_piecewise hstyle hno ht' hc ho1 ho2 ho3
+  obtain ⟨h1, h2⟩ := step_tag lic_piecewise hstyle hno
+    (fun hn => eq_nil_of_mem_iff (fun x => mem_extractRaw_lic hnsT) hn.2.1) ht' hc ho1 ho2 ho3
   have hd := createHeader_declares hmerge (by rw [hn]; exact hidem) hcr
   rw [hn] at hd
   -- a value read from the new block is read from the new text
@@ -327,14 +375,15 @@ theorem step_contributors {norm : Text → Text} {o : Op} {t t' : Text}
   obtain ⟨hn, hidem, hmerge, hstyle, hno, hns, hns', hseam⟩ := hg t' hw
   obtain ⟨hdr, hcr, ht'⟩ := annotate_sections hw hno
   obtain ⟨hc, ho1, ho2, ho3⟩ := seamOK_parts hseam hcr
-  have hs := sections_ok o.c o.replace t hstyle hno
+  have hs := sections_ok o t hstyle hno
   have hnsT : findSub Generated.ignoreStart t = none := by
     unfold noIgnoreStart at hns; simpa using hns
   have hnsT' : findSub Generated.ignoreStart t' = none := by
     unfold noIgnoreStart at hns'; simpa using hns'
   have hnsH := noIgnore_block hs hns
   have hnsHdr : findSub Generated.ignoreStart hdr = none := noIgnore_placed (by rw [← ht']; exact hns')
-  obtain ⟨h1, h2⟩ := step_tag con_piecewise hstyle hno ht' hc ho1 ho2 ho3
+  obtain ⟨h1, h2⟩ := step_tag con_piecewise hstyle hno
+    (fun hn => eq_nil_of_mem_iff (fun x => mem_extractRaw_con hnsT) hn.2.2) ht' hc ho1 ho2 ho3
   unfold rendersCon newHeaderOf at hren
   simp only [hcr, List.all_eq_true, List.mem_append, List.contains_eq_mem, decide_eq_true_eq] at hren
   have hfromHdr : x ∈ (extractRaw hdr).con → x ∈ (extractRaw t').con :=
